@@ -10,27 +10,27 @@ G = "engine G (gridmc): bounded-exhaustive enumeration of input grids and of sin
 
 CHECKS = {
  "C01": dict(engine="seqmc", cat="model_checking", ref="5 (C01), 3.2",
-   text="Every operation sequence over the SC-types (63 letters incl. all seven rebuild paths), SC-zero, SC-edge (64-bit limits), SC-twin (ids of different formats sharing their bytes), SC-wide (four ids) and SC-bulk (macro letters: 8 / 70 orders at once, 36 cancels, 40 amendments) alphabets up to the reported depth is executed on the real level; after every transition the aggregates must equal the sums over iter_orders(), snapshot fields and total_quantity must agree. Exhaustive within the bound, which is what a property over all histories needs.",
+   text="Every operation sequence over the SC-types (63 letters incl. all seven rebuild paths), SC-zero, SC-edge (64-bit limits), SC-twin (ids of different formats sharing their bytes), SC-wide (four ids) and SC-bulk (macro letters: 8 / 70 orders at once, 36 cancels, 40 amendments) alphabets up to the reported depth is executed on the real level; after every transition the aggregates must equal the sums over iter_orders(), snapshot fields and total_quantity must agree. One alphabet is explored a second time under the clock seam (the harness answers clock_gettime: a virtual clock jumping 1.5 s at every reading), so that time-driven behaviour is part of every history. Exhaustive within the bound, which is what a property over all histories needs.",
    note="bounded depth / 2-3 ids / listed templates; 128-bit state hashes; listing seam owns map iteration order",
    tech="explicit-state BFS on the implementation (history replay), aggregate-vs-listing invariant on every transition"),
  "C02": dict(engine="seqmc", cat="model_checking", ref="5 (C02), 3.2",
-   text="Every match transition reachable in SC-types (+ an order priced off-level), SC-order, SC-zero and SC-edge is checked for executed+remaining=requested, completion flag, per-transaction fields incl. the generator's next unused id, per-maker conservation (total before = fills + total after, hidden discarded only by a manual reserve) and the filled-id list (pure predicates from the statement - no queue discipline is pinned); plus the MatchResult builder grid (every sequence of <= 4 transactions, quantities in {0,1,2,3,MAX}, on MatchResult::new(id, q)).",
+   text="Every match transition reachable in SC-types (+ an order priced off-level), SC-order, SC-zero and SC-edge is checked for executed+remaining=requested, completion flag, per-transaction fields incl. the generator's next unused id, per-maker conservation (total before = fills + total after, hidden discarded only by a manual reserve) and the filled-id list (pure predicates from the statement - no queue discipline is pinned); plus the MatchResult builder grid (every sequence of <= 4 transactions, quantities in {0,1,2,3,MAX}, on MatchResult::new(id, q)). One alphabet is explored a second time under the clock seam (the harness answers clock_gettime: a virtual clock jumping 1.5 s at every reading), so that time-driven behaviour is part of every history.",
    note="as C01; lifetime bound follows by induction over the explored transitions",
    tech="explicit-state BFS on the implementation with accounting predicates on every match transition + exhaustive builder grid"),
  "C04": dict(engine="seqmc", cat="model_checking", ref="5 (C04), 3.1",
-   text="All histories of SC-order (3 ids, 26 letters), a two-id all-types alphabet, SC-zero (orders that display nothing), SC-wide (four ids) and SC-bulk (macro letters reaching 70 resting orders / 40 stale tickets) up to the reported depth; every result, the resting set and a draining match from every state are compared with the ideal priority model and with the known-deviation variants (KF1 tail re-queue, KF2 stale ticket). Behaviour explained only by an open known finding prints KNOWN-FINDING; behaviour matching no variant is a VIOLATION.",
+   text="All histories of SC-order (3 ids, 26 letters), a two-id all-types alphabet, SC-zero (orders that display nothing), SC-wide (four ids) and SC-bulk (macro letters reaching 70 resting orders / 40 stale tickets) up to the reported depth; every result, the resting set and a draining match from every state are compared with the ideal priority model and with the known-deviation variants (KF1 tail re-queue, KF2 stale ticket). One alphabet is explored a second time under the clock seam (the harness answers clock_gettime: a virtual clock jumping 1.5 s at every reading), so that time-driven behaviour is part of every history. Behaviour explained only by an open known finding prints KNOWN-FINDING; behaviour matching no variant is a VIOLATION.",
    note="ideal model written from the statement (a maker that cannot give anything keeps its place); the iceberg tranche size is adopted from the implementation within the statement's bounds; known findings listed in KNOWN_FINDINGS.txt",
    tech="explicit-state BFS on the implementation vs ideal reference model with known-deviation variants"),
  "C06": dict(engine="seqmc", cat="model_checking", ref="5 (C06)",
-   text="Every match letter in every state reachable in SC-zero (zero displays, zero replenish amounts, fully hidden reserve, amend to 0), SC-types, SC-wide and SC-bulk (70-order books, long runs of stale tickets), plus a draining match from every state, must return within a step budget counted by the hook, leave no displayed quantity if something remains, and execute at least min(requested, displayed).",
+   text="Every match letter in every state reachable in SC-zero (zero displays, zero replenish amounts, fully hidden reserve, amend to 0), SC-types, SC-wide and SC-bulk (70-order books, long runs of stale tickets), plus a draining match from every state, must return within a step budget counted by the hook, leave no displayed quantity if something remains, and execute at least min(requested, displayed). One alphabet is explored a second time under the clock seam (the harness answers clock_gettime: a virtual clock jumping 1.5 s at every reading), so that time-driven behaviour is part of every history.",
    note="non-termination detected by a budget of 5*10^3 hooked shared-memory steps per call (a legitimate sweep over 70 orders needs about 10^3)",
    tech="explicit-state BFS on the implementation with a per-call step budget (hook as step counter)"),
  "C07": dict(engine="seqmc", cat="model_checking", ref="5 (C07)",
-   text="All five update kinds for present and absent ids, equal and different prices, over all templates, in every reachable state: return value and post-state are compared with the reference model and with model-independent predicates against the pre-state listing; every history is executed twice, quietly and with the full read battery after every operation, and both runs must agree (purity).",
+   text="All five update kinds for present and absent ids, equal and different prices, over all templates, in every reachable state: return value and post-state are compared with the reference model and with model-independent predicates against the pre-state listing; every history is executed twice, quietly and with the full read battery after every operation, and both runs must agree (purity). One alphabet is explored a second time under the clock seam (the harness answers clock_gettime: a virtual clock jumping 1.5 s at every reading), so that time-driven behaviour is part of every history.",
    note="amend of TrailingStop/Pegged/MarketToLimit/Reserve is specified as a no-op (pinned by the repository's tests)",
    tech="explicit-state BFS on the implementation, twin execution with read-only calls interleaved"),
  "C10": dict(engine="seqmc", cat="model_checking", ref="5 (C10)",
-   text="In every reachable state (after fills, replenishments, amends) each of the seven rebuild paths is executed for every permutation of the pre-sort listing (ties), and each constructor is fed aggregate fields that disagree with the orders; rebuilt content, derived aggregates and the timestamp-sorted duplicate-free listing are checked.",
+   text="In every reachable state (after fills, replenishments, amends) each of the seven rebuild paths is executed for every permutation of the pre-sort listing (ties), and each constructor is fed aggregate fields that disagree with the orders; rebuilt content, derived aggregates and the timestamp-sorted duplicate-free listing are checked. One alphabet is explored a second time under the clock seam (the harness answers clock_gettime: a virtual clock jumping 1.5 s at every reading), so that time-driven behaviour is part of every history.",
    note="as C01",
    tech="explicit-state BFS on the implementation, per-state rebuild matrix (paths x tie permutations x foreign aggregates)"),
  "C11": dict(engine="seqmc", cat="model_checking", ref="5 (C11)",
@@ -42,7 +42,7 @@ CHECKS = {
    note="3 ids; known finding KF2 listed in KNOWN_FINDINGS.txt",
    tech="explicit-state BFS on the real OrderQueue vs FIFO reference model with a known-deviation variant"),
  "C03": dict(engine="schedmc", cat="model_checking", ref="5 (C03), 3.3",
-   text="Every program of the enumerated families (all multisets of 2 one-operation threads over a 19-letter alphabet incl. every update kind on eight pre-loaded books - one of them not fresh (stale and duplicate tickets), one with a fully hidden reserve order -, all multisets of 3 over 11 letters on five books, all pairs of two-operation threads, pairs on a 70-order book; thorough adds 4 threads, 3x2 operations, bound 4 and the 2-thread programs without any bound) x every interleaving within the preemption bound is executed on the real level. At quiescence: aggregates = sums over the listing, the per-order equation supplied(+amend adjustments) = executed + cancelled + resting + discarded, and every ownership link reconstructed from the map events (pop..push of a match, remove..push of an amend, remove of a cancel) conserves quantity according to the matching rules.",
+   text="Every program of the enumerated families (all multisets of 2 one-operation threads over a 19-letter alphabet incl. every update kind on eight pre-loaded books - one of them not fresh (stale and duplicate tickets), one with a fully hidden reserve order -, all multisets of 3 over 11 letters on five books, all pairs of two-operation threads, pairs on a 70-order book; thorough adds 4 threads, 3x2 operations, bound 4 and the 2-thread programs without any bound) x every interleaving within the preemption bound is executed on the real level. Further families: levels with a long history (1019..1028 same-price amendments, or 62..66 of 70 orders cancelled, before the threads start; thorough 1017..1030 / 60..67), a reader that rebuilds a level from the snapshot it took concurrently and empties it, one fine-grained call against 3-4 call-atomic calls of another thread, and the two-thread programs again under a virtual clock that jumps 1.5 s / 1 h (thorough also 0 / 0.4 s) at every reading. At quiescence: aggregates = sums over the listing, the per-order equation supplied(+amend adjustments) = executed + cancelled + resting + discarded, and every ownership link reconstructed from the map events (pop..push of a match, remove..push of an amend, remove of a cancel) conserves quantity according to the matching rules.",
    note="SC interleavings at the granularity of hooked operations; statistics atomics and id counter not scheduling points (write-only: sound); DashMap::iter atomic",
    tech="stateless model checking of the implementation under a controlled coroutine scheduler, iterative preemption bounding, ownership-ledger oracle"),
  "C08": dict(engine="schedmc", cat="model_checking", ref="5 (C08), 3.3",
@@ -50,7 +50,7 @@ CHECKS = {
    note="as C03",
    tech="stateless model checking under a controlled scheduler + drain reachability oracle; unbounded DFS for the queue programs"),
  "C12": dict(engine="schedmc", cat="model_checking", ref="5 (C12), 3.3",
-   text="The C03 programs and schedules with a monitor that reads visible, hidden and count after every single scheduled step (and reader threads that snapshot the level): no figure may exceed everything the program ever supplies, in particular no wrapped value.",
+   text="The C03 programs and schedules with a monitor that reads visible, hidden and count after every single scheduled step (and reader threads that snapshot the level): no figure may exceed everything the program ever supplies, in particular no wrapped value. The figures are also checked after the final draining match, and on the level a reader rebuilt from its concurrent snapshot after emptying it.",
    note="as C03; the bound is program-wide (book + all adds + all amend targets)",
    tech="stateless model checking under a controlled scheduler with a between-step invariant monitor"),
  "C13": dict(engine="schedmc", cat="model_checking", ref="5 (C13), 3.3",
@@ -66,7 +66,7 @@ CHECKS = {
    note="grid points only; the iceberg tranche is checked as the inequality the property states",
    tech="bounded-exhaustive enumeration of the input grid against the specification predicates"),
  "C09": dict(engine="gridmc", cat="fault_enumeration", ref="5 (C09), 3.4",
-   text="For each seed level (all templates, two-order books, boundary-value books with both id formats, and 40- / 70-order levels whose packages exceed 4 and 8 KiB at every alignment) every truncation point, every single-character deletion / substitution / insertion with 97 characters at every offset of the package JSON, every structural edit (drop / duplicate / swap orders, delete any field, rewrite any number or enum string, version, checksum variants, envelope stripped / re-nested), pairs of structural edits and in-memory edits of the package value are executed through the real restore path. A restore must fail, or yield exactly the snapshotted content (price, aggregates, every order field, re-snapshot text, maker sequence of a draining match); prefixes and unsupported versions must fail.",
+   text="For each seed level (all templates, two-order books, boundary-value books with both id formats, and 40- / 70-order levels whose packages exceed 4 and 8 KiB at every alignment) every truncation point, every single-character deletion / substitution / insertion with 97 characters at every offset of the package JSON, every structural edit (drop / duplicate / swap orders, delete any field, rewrite any number or enum string, version, checksum variants, envelope stripped / re-nested), pairs of structural edits and in-memory edits of the package value are executed through the real restore path. Also: levels whose orders share a timestamp, written in every listing order (6 / 24-120 sequences), ids rewritten as a whole into the other id format / another spelling / another id; the untouched package must restore the listed sequence (first visits of a draining match). A restore must fail, or yield exactly the snapshotted content (price, aggregates, every order field, re-snapshot text, maker sequence of a draining match); prefixes and unsupported versions must fail.",
    note="no assumption about SHA-256: every mutated input is executed; seeds as listed in the evidence",
    tech="exhaustive single- and double-fault enumeration (torn writes, byte edits, structural edits) on the serialized package, executed on the implementation"),
  "C16": dict(engine="gridmc", cat="exploration", ref="5 (C16), 3.4",
@@ -78,11 +78,11 @@ CHECKS = {
    note="grid points only",
    tech="bounded-exhaustive enumeration of the value grid, JSON round-trip equality"),
  "C18": dict(engine="gridmc", cat="exploration", ref="5 (C18), 3.4",
-   text="28 entry points (13 FromStr, 15 JSON). For 77 seeds (a valid encoding per type and variant): every truncation, every deletion / insertion / substitution at every character offset with a 17-symbol alphabet incl. 2-, 3- and 4-byte characters and NUL, every numeric literal rewritten (0, +-1, x10, 2^64-1, 2^64, 40 digits, negative, exponent, hex, 15..256 digits followed by a multi-byte character), every segment duplicated / dropped / swapped / repeated 7..130 times, 7..65 extra key=value segments; every seed fed to every parser; every string of length <= 4 (thorough 5) over a 15-symbol alphabet after each format prefix; thorough adds all pairs of character edits. Every input is parsed under catch_unwind with a hang watchdog.",
+   text="28 entry points (13 FromStr, 15 JSON). For 77 seeds (a valid encoding per type and variant): every truncation, every deletion / insertion / substitution at every character offset with a 17-symbol alphabet incl. 2-, 3- and 4-byte characters and NUL, every numeric literal rewritten (0, +-1, x10, 2^64-1, 2^64, 40 digits, negative, exponent, hex, 15..256 digits followed by a multi-byte character), every segment duplicated / dropped / swapped / repeated 7..130 times, 7..65 extra key=value segments; for the JSON seeds every key deleted, every number rewritten to ten boundary / huge values, every value replaced by seven values of other types, and every (deleted key, second edit) pair; every seed fed to every parser; every string of length <= 4 (thorough 5) over a 15-symbol alphabet after each format prefix; thorough adds all pairs of character edits. Every input is parsed under catch_unwind with a hang watchdog.",
    note="edits of valid encodings and short strings, not all Unicode strings; the sweep runs in a child process, an abort (stack overflow, allocation failure) is pinned to its input and reported as a violation",
    tech="bounded-exhaustive enumeration of single / double edits at every offset, executed on the implementation under a panic and hang guard"),
  "C15": dict(engine="seqmc", cat="model_checking", ref="5 (C15)",
-   text="Sequential half: all histories with positive quantities, statistics counters in the state key; after every transition the four counters must equal the events derived from the implementation's own return values. Concurrent half: 2-3 thread programs with the eight statistics atomics as scheduling points, every interleaving within the bound, counters at quiescence vs the events the threads observed; the statistics object on its own from 2-3 threads (all interleavings, plus 'victim' programs where one thread is preempted at every step against up to 24 complete calls of the other); long sweeps (one call with 7*10^4..1.2*10^6 fills).",
+   text="Sequential half: all histories with positive quantities, statistics counters in the state key; after every transition the four counters must equal the events derived from the implementation's own return values. Concurrent half: 2-3 thread programs with the eight statistics atomics as scheduling points, every interleaving within the bound, counters at quiescence vs the events the threads observed; the statistics object on its own from 2-3 threads (all interleavings, plus 'victim' programs where one thread is preempted at every step against up to 24 complete calls of the other); long sweeps (one call with 7*10^4..1.2*10^6 fills). One sequential alphabet is explored again under the clock seam (virtual clock jumping 1.5 s per reading).",
    note="orders carry the level's price (the property's premise); SC interleavings",
    tech="explicit-state BFS on the implementation + stateless model checking under a controlled scheduler, counters vs observed events"),
 }
